@@ -55,6 +55,8 @@ type Case struct {
 	Set  lp.Settings `json:"settings"`
 	Line []byte      `json:"line"`
 	Opts Opts        `json:"opts"`
+	// Chdirs: working directories entered one after the other, the event rendered before each move
+	Chdirs []string `json:"chdirs,omitempty"`
 }
 
 func wrapIf(w bool, s string) string {
@@ -163,6 +165,19 @@ func check(c *Case) (msg string, full bool, nontrivial bool) {
 		}
 		w.TimeLocation = loc
 	}
+	if len(c.Chdirs) > 0 {
+		// environment history: the event is rendered in other working directories first (the default
+		// caller formatter shortens paths against the directory of the moment), the check itself
+		// then happens in the last one
+		if orig, err := os.Getwd(); err == nil {
+			defer os.Chdir(orig)
+			for _, d := range c.Chdirs {
+				w.Write(c.Line)
+				os.Chdir(d)
+			}
+			out.Reset()
+		}
+	}
 	n, werr := w.Write(c.Line)
 	if werr != nil || n != len(c.Line) {
 		return fmt.Sprintf("Write returned (%d, %v) for a %d-byte event", n, werr, len(c.Line)), false, false
@@ -175,6 +190,12 @@ func check(c *Case) (msg string, full bool, nontrivial bool) {
 		fw.Out = &failingOut{room: room}
 		fw.Write(c.Line)
 		fw.Write([]byte("{\"level\":\"warn\",\"lost\":\"" + strings.Repeat("x", 40) + "\"}\n"))
+	}
+	// ... and neither must events that were delivered: differently shaped lines (every part
+	// present, none present, many fields, nested values, another level/time/caller, a broken
+	// line) go through the same writer before the event is rendered again
+	for _, other := range historyLines {
+		w.Write([]byte(other))
 	}
 	out.Reset()
 	w.Write(c.Line)
@@ -437,6 +458,16 @@ func seq(n int) []int {
 	return o
 }
 
+// historyLines are written through a ConsoleWriter between two renderings of the event under test.
+var historyLines = []string{
+	`{"level":"error","time":"2001-02-03T04:05:06Z","caller":"/a/b/c.go:12","message":"earlier event","error":"boom","a":1,"b":"two words","c":[1,{"d":"<&>"}],"e":{"f":null},"g":true,"h":1.5e300}` + "\n",
+	"{}\n",
+	`{"level":"trace","time":1234567890.123456,"message":"","z":"` + strings.Repeat("z", 3000) + `"}` + "\n",
+	`{"level":"panic","time":"not a time","caller":12,"message":["x"],"error":{"k":"v"},"k1":1,"k2":2,"k3":3,"k4":4,"k5":5,"k6":6,"k7":7,"k8":8,"k9":9}` + "\n",
+	`{"level":"warn","broken":` + "\n",
+	`{"level":"-3","time":"2038-01-19T03:14:08.999999999+14:00","message":"multi\nline","error":null}` + "\n",
+}
+
 func TestRapidEvents(t *testing.T) {
 	var nFull, nAll int64
 	rapid.Check(t, func(rt *rapid.T) {
@@ -494,6 +525,9 @@ func TestRapidEvents(t *testing.T) {
 					keys = append(keys, m.Key)
 				}
 				c := &Case{Set: p.Set, Line: w.Data, Opts: genOpts(rt, p.Set, keys)}
+				if rapid.IntRange(0, 7).Draw(rt, "chdir") == 0 {
+					c.Chdirs = rapid.SampledFrom([][]string{{".."}, {"/"}, {"..", "lp"}, {"../.."}}).Draw(rt, "chdirs")
+				}
 				msg, full, nt := check(c)
 				b, _ := json.Marshal(c)
 				cls := "parts-unchecked"
@@ -540,6 +574,26 @@ func TestDirected(t *testing.T) {
 				cls = "directed-parts-checked"
 			}
 			rec.Case(b, true, cls)
+			if msg != "" {
+				fail(t, "directed", c, msg)
+			}
+		}
+	}
+	// a caller below, beside and above a working directory that changes between renderings
+	cwd, err := os.Getwd()
+	if err != nil {
+		t.Fatalf("HARNESS-ERROR: %v", err)
+	}
+	for _, caller := range []string{cwd + "/x.go:12", filepath.Dir(cwd) + "/lp/run.go:276", "/elsewhere/y.go:1", "relative/z.go:3"} {
+		for _, dirs := range [][]string{{".."}, {"/", cwd}, {"..", "..", "/"}, {cwd}} {
+			line, _ := json.Marshal(map[string]string{"time": "2023-11-14T22:13:20Z", "level": "info", "caller": caller, "message": "m"})
+			c := &Case{Set: set, Line: append(line, '\n'), Opts: Opts{Zone: &z}, Chdirs: dirs}
+			msg, full, _ := check(c)
+			if !full && msg == "" {
+				msg = "HARNESS-ERROR: the parts of a directed working-directory case were not compared"
+			}
+			b, _ := json.Marshal(c)
+			rec.Case(b, true, "directed-chdir")
 			if msg != "" {
 				fail(t, "directed", c, msg)
 			}
